@@ -267,3 +267,47 @@ def multipart_consume(I):
     # get_datum_uri itself
     got = call_method(I, o, "get_datum_uri", w.int("index"))
     w.check(E_URI, isinstance(got, tuple) and got[0] == "uri+" and got[1].spec.get("arg") is fmt_calls[-1] and Eq(fmt_calls[-1], w.int("index")), rp)
+
+
+# ------------------------------------------------------------------------------------------------ the assumed group decomposition, validated
+E_RE = (f"{MQ}.__init__#assumes-validated[the regular expression handed to re.sub matches every integer conversion of the grammar as a whole and "
+        "decomposes it into (flags, width, precision, 'd'); nothing else in such a template matches]")
+
+
+@task("template.regex_decomposition", PROP, functions=[f"{MQ}.__init__"], expect=[E_RE],
+      bounded="the 18 flag sets of the proof (and every permutation of their characters) x widths '', '1', '6', '12' x precisions absent, '0', '6', '12' "
+              "(host re module applied to the pattern literal found in the source)")
+def regex_decomposition(I):
+    """the int_replacer proof replaces re.sub by the decomposition its pattern defines (TRUSTED); this task reads the pattern literal out of the
+    real __init__ and checks that decomposition with Python's own re engine, so a change of the pattern cannot slip behind the assumption"""
+    import ast as _ast
+    import itertools
+    import re
+    w = I.w
+    m, chain, node = I.P.find_function(f"{MQ}.__init__")
+    pats = []
+    for n in _ast.walk(node):
+        if (isinstance(n, _ast.Call) and isinstance(n.func, _ast.Attribute) and n.func.attr == "sub" and len(n.args) >= 2
+                and isinstance(n.args[0], _ast.Constant) and isinstance(n.args[0].value, str) and isinstance(n.args[1], _ast.Name)
+                and n.args[1].id == "int_replacer"):
+            pats.append(n.args[0].value)
+    rp = {"replay": "consolidators.regex_decomposition"}
+    if len(pats) != 1:
+        w.check(E_RE, False, dict(rp, note=f"expected exactly one re.sub(<pattern literal>, int_replacer, ...) in __init__, found {len(pats)}"))
+        return
+    pat = re.compile(pats[0])
+    bad = []
+    flagsets = set()
+    for fl in FLAGSETS:
+        for perm in itertools.permutations(fl):
+            flagsets.add("".join(perm))
+    for fl in sorted(flagsets):
+        for wd in ("", "1", "6", "12"):
+            for pr in (None, "0", "6", "12"):
+                conv = "%" + fl + wd + ("" if pr is None else "." + pr) + "d"
+                text = "img_" + conv + ".tif"
+                ms = list(pat.finditer(text))
+                ok = (len(ms) == 1 and ms[0].group(0) == conv and tuple(ms[0].groups()) == (fl, wd or None, pr, "d"))
+                if not ok and len(bad) < 3:
+                    bad.append((conv, [mm.group(0) for mm in ms], [mm.groups() for mm in ms]))
+    w.check(E_RE, not bad, dict(rp, pattern=pats[0], examples=repr(bad)))
